@@ -1,6 +1,7 @@
 package hook
 
 import (
+	"os"
 	"io"
 	"net"
 	"net/http"
@@ -99,6 +100,7 @@ func HTTPPost(url, contentType string, body io.Reader) (*http.Response, error) {
 type TCPLike interface {
 	net.Conn
 	SetLinger(sec int) error
+	File() (*os.File, error)
 }
 
 // AsTCPConn replaces `c.(*net.TCPConn)` in rewritten sources.
